@@ -7,10 +7,14 @@ import (
 	"flag"
 	"fmt"
 	"os"
+	"path/filepath"
 	"runtime"
 	"sort"
+	"strings"
 
 	dirkutil "github.com/attestantio/dirk/util"
+	"github.com/mitchellh/go-homedir"
+	"github.com/spf13/viper"
 )
 
 type commonFlags struct {
@@ -125,7 +129,9 @@ func cmdSlashing(prop string, args []string) int {
 		inst.Close(ctx)
 	}
 	_ = mon
-	monFail = append(monFail, storageLocationProbe(run.stats)...)
+	idx := map[string]string{}
+	pf, pathFiles := storageLocationProbe(prop, cf.out, run.stats, idx)
+	monFail = append(monFail, pf...)
 	// region sweep of the rule kernel against hand-set stored records
 	sweepCount, err := regionSweep(ctx, run, fx, rng, prop, sweepN, &monFail)
 	if err != nil {
@@ -137,7 +143,7 @@ func cmdSlashing(prop string, args []string) int {
 		fmt.Fprintln(os.Stderr, "emit:", err)
 		return 2
 	}
-	idx := map[string]string{}
+	files = append(files, pathFiles...)
 	distinct := map[string]bool{}
 	for i := range run.steps {
 		st := &run.steps[i]
@@ -328,41 +334,69 @@ func regionSweep(ctx context.Context, run *Runner, fx *Fixture, rng *PRNG, prop 
 }
 
 // storageLocationProbe: the watermarks survive a restart only if the daemon finds its store again.  main.go opens
-// the store at util.ResolvePath(storage-path); for the default (relative) storage path, without base-dir, that
-// location must not depend on the directory the daemon happens to be started from - also when $HOME is not set
-// (a system service).
-func storageLocationProbe(stats map[string]int) (fails []string) {
+// the store at util.ResolvePath(storage-path): the real function is run for working directories x $HOME set or
+// not x base-dir x paths; the results go to the model (Paths.resolve_path) as cases_<prop>_paths.v, and - model
+// independent - the location for the default (relative) storage path must not depend on the working directory.
+func storageLocationProbe(prop, out string, stats map[string]int, idx map[string]string) (fails []string, files []string) {
 	home, hadHome := os.LookupEnv("HOME")
 	cwd, err := os.Getwd()
 	if err != nil {
-		return nil
+		return nil, nil
 	}
+	oldBase := viper.GetString("base-dir")
+	homedir.DisableCache = true // every daemon start determines the home directory afresh
 	defer func() {
+		homedir.DisableCache = false
+		viper.Set("base-dir", oldBase)
 		if hadHome {
 			_ = os.Setenv("HOME", home)
 		}
 		_ = os.Chdir(cwd)
 		if x := recover(); x != nil {
 			stats["storage-location.no-home-directory"]++
-			fails = nil
+			fails, files = nil, nil
 		}
 	}()
-	resolve := func(dir string) string {
-		if err := os.Chdir(dir); err != nil {
-			panic(err)
-		}
-		return dirkutil.ResolvePath("storage")
-	}
+	var cases []string
+	id := 9000000
+	dirs := []string{"/", os.TempDir()}
 	for _, unset := range []bool{false, true} {
 		if unset {
 			_ = os.Unsetenv("HOME")
 		}
-		a, b := resolve("/"), resolve(os.TempDir())
-		stats["storage-location.probes"]++
-		if a != b {
-			fails = append(fails, fmt.Sprintf("restart from another directory (HOME set: %v): the slashing-protection store for storage-path \"storage\" is opened at %q when started in / and at %q when started in %s; the proposal and attestation watermarks of the first run are not seen by the second",
-				!unset, a, b, os.TempDir()))
+		homeNow, err := homedir.Dir() // go-homedir itself (trusted): environment, else the password database
+		if err != nil {
+			panic(err)
+		}
+		for _, base := range []string{"", "/var/lib/dirk", "/"} {
+			viper.Set("base-dir", base)
+			for _, path := range []string{"storage", "/abs/storage", "a/b", "wallets", "dirk.log"} {
+				var got []string
+				for _, dir := range dirs {
+					if err := os.Chdir(dir); err != nil {
+						panic(err)
+					}
+					g := dirkutil.ResolvePath(path)
+					got = append(got, g)
+					id++
+					cases = append(cases, fmt.Sprintf(" PC %s %s %s %s %s %s", coqN(id), coqStr(dir), coqStr(homeNow), coqStr(base), coqStr(path), coqStr(g)))
+					idx[fmt.Sprint(id)] = fmt.Sprintf("ResolvePath(%q) started in %s, HOME set: %v, base-dir %q = %q", path, dir, !unset, base, g)
+					stats["storage-location.probes"]++
+				}
+				if got[0] != got[1] && path == "storage" {
+					fails = append(fails, fmt.Sprintf("restart from another directory (HOME set: %v, base-dir %q): the slashing-protection store for storage-path %q is opened at %q when started in %s and at %q when started in %s; the watermarks of the first run are not seen by the second",
+						!unset, base, path, got[0], dirs[0], got[1], dirs[1]))
+				}
+			}
 		}
 	}
-	return fails
+	var b strings.Builder
+	b.WriteString("From DV Require Import Corr.CheckPaths.\nLocal Open Scope string_scope.\n")
+	fmt.Fprintf(&b, "Definition pcases : list pcase := [\n%s].\n", strings.Join(cases, ";\n"))
+	b.WriteString("Definition M := Eval vm_compute in path_mismatches pcases.\nPrint M.\n")
+	name := "cases_" + prop + "_paths.v"
+	if err := os.WriteFile(filepath.Join(out, name), []byte(b.String()), 0o644); err != nil {
+		panic(err)
+	}
+	return fails, []string{name}
 }
